@@ -885,8 +885,11 @@ impl Xot {
                 "Cannot replace a node with itself or one of its descendants".to_string(),
             ));
         }
-        // record previous sibling
+        // record previous and next sibling
         let previous_node = self.previous_sibling(replaced_node);
+        let next_node = self
+            .next_sibling(replaced_node)
+            .filter(|next_node| *next_node != replacing_node);
         // remove the replaced node, use low-level remove_tree to avoid
         // text node reconciliation and document element detection
         replaced_node.get().remove_subtree(self.arena_mut());
@@ -895,6 +898,12 @@ impl Xot {
             self.insert_after(previous_node, replacing_node)?;
         } else {
             self.prepend(parent, replacing_node)?;
+        }
+        // a replacing text node consolidates with the text node before it;
+        // the result can then be adjacent to the text node that followed the
+        // replaced node, so reconcile that junction too
+        if let Some(next_node) = next_node {
+            self.remove_consolidate_text_nodes(self.previous_sibling(next_node), Some(next_node));
         }
         Ok(())
     }
